@@ -1,16 +1,43 @@
+import os, subprocess
+
 T = "GeomV.C16."
+
+
+def pregen(check):
+    """Regenerated tie: harness/cmd/c16/extract (go/ast) reads the CURRENT encoding/shp/shp.go and rewrites
+    lean/GeomV/C16/Gen.lean (constants intLength/floatLength/floatPrecision/stringLength/tag, the column
+    constructors of NewEncoder, the lookup chain of DecodeRow, the Trim cut sets, shape-before-attributes in
+    both encoders, the single r.row++ of DecodeRowFields) with `tie_*` theorems `source = model`. Proofs.lean
+    imports it, so a source change that leaves the model's assumptions breaks `lake build` (broken
+    obligation, then the failing-input search). The file is rewritten only when its content changes."""
+    import vcheck
+    with vcheck.Lock("go"):
+        p = subprocess.run(["go", "run", "./cmd/c16/extract", vcheck.REPO], cwd=vcheck.HARNESS, env=vcheck.GOENV,
+                           stdout=subprocess.PIPE, stderr=subprocess.PIPE, text=True)
+    path = os.path.join(vcheck.LEAN, "GeomV", "C16", "Gen.lean")
+    if p.returncode != 0 or "namespace GeomV.C16.Gen" not in p.stdout:
+        check.broken.append("extractor harness/cmd/c16/extract failed on encoding/shp/shp.go: " + p.stderr.strip()[-300:])
+        return
+    old = open(path).read() if os.path.exists(path) else None
+    if old != p.stdout:
+        open(path, "w").write(p.stdout)
+
+
 CFG = {
     "id": "C16",
     "lean_modules": ["GeomV.C16.Proofs"],
     "exe": "geomv_c16",
     "go_cmd": "c16",
     "stages": ["go:gen", "go:impl", "lean:judge"],
+    "pregen": pregen,
     "theorems": [T + n for n in ["getStartEnd_partition", "C16_geom", "C16_geom_unsupported", "C16_order", "C16_order_any_fields", "C16_order_schedule", "C16_order_struct", "C16_decodeRow_assigned", "C16_order_encode",
                                  "C16_int", "C16_int_width", "C16_string", "C16_string_converse", "C16_string_iff", "C16_string_violations", "C16_float", "C16_float_render",
                                  "C16_match", "C16_assigned", "C16_match_none", "C16_match_fields",
-                                 "C16_name_roundtrip", "C16_columns", "C16_match_self", "C16_struct_roundtrip"]],
+                                 "C16_name_roundtrip", "C16_columns", "C16_match_self", "C16_struct_roundtrip",
+                                 "Gen.tie_widths", "Gen.tie_columns", "Gen.tie_lookup", "Gen.tie_cuts", "Gen.tie_write_order"]],
     "trusted_base": [
         "Lean 4.33.0 kernel; axioms of every theorem printed by #print axioms must be within {propext, Classical.choice, Quot.sound}",
+        "harness/cmd/c16/extract (go/ast, ~300 lines) transcribes constants, lookup order, cut sets and write order of encoding/shp/shp.go into Gen.lean faithfully",
         "model lean/GeomV/C16/Model.lean is tied to /repo/encoding/shp/{shp.go,shp2geom.go} by the correspondence run through real temporary shapefiles (both encoder and both decoder paths, token-exact) on every check",
         "go-shp's .shp/.shx/.dbf byte layout (github.com/jonas-p/go-shp, pinned by go.sum h1:h5O7ee4tlSPVjdC75eSLX7jXZiHftthuHio/GtrhaSM=, checked by the harness at run time): a file stores and returns the ordered rows (shape, cells) and the field list - external contract, exercised not proved",
         "Go strconv (Itoa/ParseInt/FormatFloat 'f'/ParseFloat correctly rounded), strings.Trim/ToLower, reflect behave as documented",
